@@ -1,4 +1,4 @@
-CONSTANT IndexerPeriod = "next"
+CONSTANTS IndexerPeriod = "next" DenseSelect = "row"
 SPECIFICATION Spec
 INVARIANT Report
 CHECK_DEADLOCK FALSE
